@@ -326,7 +326,7 @@ def validate(cm, msg):
             return ("error", "second-close", False)
         if "mailbox" in msg:
             if cm.named is not None and msg["mailbox"] != cm.named:
-                return ("error", "close-mismatch", cm.open_refused or cm.stale)
+                return ("error", "close-mismatch", cm.open_refused)
             return ("ok", "close", msg["mailbox"])
         if cm.named is None:
             return ("error", "close-without-open", False)
